@@ -181,6 +181,8 @@ class InstanceManager:
                             del self._instances[key]
             except KeyError:
                 pass
+            except OverflowError:
+                pass # a deadline beyond the range of datetime (e.g. a timeout of 600000 weeks) is never reached: the instance stays, and the sweep goes on
 
 ######################
 ##  REST API CLASS  ##
